@@ -450,7 +450,12 @@ mod exec {
         /// use `detached()`.
         pub fn capture(self) -> PopenResult<CaptureData> {
             let (mut comm, mut p) = self.setup_communicate()?;
-            let (maybe_out, maybe_err) = comm.read()?;
+            let result = comm.read();
+            // Close our ends of the pipes before the process is waited for
+            // (also when p is dropped on error): if it is blocked writing
+            // output that will not be read any more, it would never exit.
+            drop(comm);
+            let (maybe_out, maybe_err) = result?;
             Ok(CaptureData {
                 stdout: maybe_out.unwrap_or_else(Vec::new),
                 stderr: maybe_err.unwrap_or_else(Vec::new),
@@ -1107,7 +1112,12 @@ mod pipeline {
         /// close.  If this is undesirable, use `detached()`.
         pub fn capture(self) -> PopenResult<CaptureData> {
             let (mut comm, mut v) = self.setup_communicate()?;
-            let (out, err) = comm.read()?;
+            let result = comm.read();
+            // Close our ends of the pipes before the commands are waited
+            // for (also when v is dropped on error): one that is blocked
+            // writing output that will not be read any more would never exit.
+            drop(comm);
+            let (out, err) = result?;
             let out = out.unwrap_or_else(Vec::new);
             let err = err.unwrap();
 
